@@ -6,6 +6,7 @@ import Solstat.Spec.C07
 import Solstat.Spec.C06
 import Solstat.Spec.C09
 import Solstat.Spec.C08
+import Solstat.Spec.Dir
 import Solstat.Gen.Patterns
 /-!
 # Correspondence-check plumbing (not part of the verified model)
@@ -183,6 +184,59 @@ def expectedSetOf : String → Option (T → List Loc)
   | "private_func_leading_underscore" => some expectedPrivateFunc
   | "constructor_order_qa" => some expectedConstructorOrder
   | _ => none
+
+/-! directory requests -/
+
+partial def parseEntries (cs : List Char) (acc : List Entry) : List Entry × List Char :=
+  match cs with
+  | 'd' :: ':' :: rest =>
+    let hexName := rest.takeWhile (· != '{')
+    let rest := (rest.dropWhile (· != '{')).drop 1
+    let (sub, rest) := parseEntries rest []
+    let rest := rest.drop 1   -- '}'
+    let e := Entry.dir (bytesToString (unhex hexName)) sub
+    match rest with
+    | ',' :: r => parseEntries r (e :: acc)
+    | r => ((e :: acc).reverse, r)
+  | 'f' :: ':' :: rest =>
+    let hexName := rest.takeWhile (· != ':')
+    let rest := (rest.dropWhile (· != ':')).drop 1
+    let key := rest.takeWhile (fun c => c != ',' && c != '}')
+    let rest := rest.dropWhile (fun c => c != ',' && c != '}')
+    let contents : Option (List UInt8) := if key == ['!'] then none else some (String.ofList key).toUTF8.toList
+    let e := Entry.file (bytesToString (unhex hexName)) contents
+    match rest with
+    | ',' :: r => parseEntries r (e :: acc)
+    | r => ((e :: acc).reverse, r)
+  | r => (acc.reverse, r)
+
+def parseNatList (s : String) : Option (List Nat) :=
+  if s == "PANIC" then none else some ((s.splitOn ";").filterMap String.toNat?)
+
+/-- `key:Variant=1;2,Variant=..|key:..` -/
+def parseGTable (s : String) : List (String × List (String × Option (List Nat))) :=
+  if s.isEmpty then [] else
+  (s.splitOn "|").filterMap fun row =>
+    match row.splitOn ":" with
+    | [key, rest] => some (key, (rest.splitOn ",").filterMap fun kv =>
+        match kv.splitOn "=" with
+        | [k, v] => some (k, parseNatList v)
+        | _ => none)
+    | _ => none
+
+/-- `Variant=hexname:1;2|hexname:3,Variant=..` -/
+def parseDirResult (s : String) : List (String × List (String × List Nat)) :=
+  if s.isEmpty then [] else
+  (s.splitOn ",").filterMap fun kv =>
+    match kv.splitOn "=" with
+    | [k, v] => some (k, (v.splitOn "|").filterMap fun fl =>
+        match fl.splitOn ":" with
+        | [f, ls] => some (bytesToString (unhex f.toList), (ls.splitOn ";").filterMap String.toNat?)
+        | _ => none)
+    | _ => none
+
+def sortPairs (xs : List (String × List Nat)) : List (String × List Nat) :=
+  (xs.toArray.qsort (fun a b => a.1 < b.1 || (a.1 == b.1 && toString a.2 < toString b.2))).toList
 
 def lookup {α : Type} (m : List (String × α)) (k : String) : Option α := (m.find? (fun e => e.1 == k)).map (·.2)
 
